@@ -265,3 +265,267 @@ pub fn string_programs() -> Vec<Program> {
     }
     out
 }
+
+/// Builds a program from a totally ordered list of (actor, op): hand-offs are inserted where the
+/// actor changes, and actors that are done wait for the end before their thread exits.
+pub fn lockstep(name: &str, seq: &[(usize, Op)]) -> Program {
+    let n = seq.iter().map(|(a, _)| *a).max().unwrap_or(0) + 1;
+    let mut ops: Vec<Vec<Op>> = vec![Vec::new(); n];
+    let mut flag = 300u32;
+    let mut cur = seq.first().map(|(a, _)| *a).unwrap_or(0);
+    for (a, op) in seq {
+        if *a != cur {
+            ops[cur].push(Op::Signal(flag));
+            ops[*a].push(Op::Wait(flag));
+            flag += 1;
+            cur = *a;
+        }
+        ops[*a].push(op.clone());
+    }
+    let used: Vec<usize> = (0..n).filter(|a| !ops[*a].is_empty()).collect();
+    if used.len() > 1 {
+        for &a in &used {
+            if a != cur {
+                ops[a].push(Op::Wait(999));
+            }
+        }
+        ops[cur].push(Op::Signal(999));
+    }
+    let mut p = Program::new(name);
+    for (a, o) in ops.into_iter().enumerate() {
+        if !o.is_empty() {
+            p = p.worker(["A", "B", "C"][a], o);
+        }
+    }
+    p
+}
+
+fn actor_seqs(n: usize, actors: usize) -> Vec<Vec<usize>> {
+    let mut out = vec![vec![]];
+    for _ in 0..n {
+        let mut next = Vec::new();
+        for s in &out {
+            for a in 0..actors {
+                let mut t = s.clone();
+                t.push(a);
+                next.push(t);
+            }
+        }
+        out = next;
+    }
+    out
+}
+
+/// C13: future adapters. Every poll is bracketed by observations of the local context.
+pub fn future_programs(thorough: bool) -> Vec<Program> {
+    let mut out = Vec::new();
+    let max_polls = if thorough { 3 } else { 2 };
+    let mut idx = 0;
+    let mut name = |k: &str| {
+        idx += 1;
+        format!("C13-{k}#{idx}")
+    };
+    for polls in 1..=max_polls {
+        for span_is_root in [true, false] {
+            for eop in [false, true] {
+                // drop_after: number of polls done before the adapter is dropped (polls = completed)
+                for drop_after in 0..=polls {
+                    for seq in actor_seqs(drop_after as usize, 2) {
+                        for dropper in 0..2usize {
+                            if !thorough && dropper == 1 && seq.iter().all(|a| *a == 0) && drop_after > 0 {
+                                // keep quick small: a second thread only drops if it also polled
+                            }
+                            let mut s: Vec<(usize, Op)> = Vec::new();
+                            s.push((0, root(0, "r", 0x13)));
+                            let span_slot = if span_is_root {
+                                0
+                            } else {
+                                s.push((0, child(1, "c", 0)));
+                                1
+                            };
+                            s.push((0, Op::MkInSpan { fut: 0, slot: span_slot, polls, tag: "f".into(), inner_enter_on_poll: eop }));
+                            for a in &seq {
+                                s.push((*a, Op::ObserveLocal));
+                                s.push((*a, Op::Poll { fut: 0 }));
+                                s.push((*a, Op::ObserveLocal));
+                            }
+                            s.push((dropper, Op::DropFut { fut: 0 }));
+                            if !span_is_root {
+                                s.push((dropper, finish(0)));
+                            }
+                            out.push(lockstep(&name(if span_is_root { "root" } else { "child" }), &s));
+                        }
+                    }
+                }
+            }
+        }
+    }
+    // polled inside an outer scope: the previous local context must come back after every poll
+    for polls in 1..=2u32 {
+        let mut s: Vec<(usize, Op)> = vec![(0, root(0, "r", 0x13)), (0, root(1, "o", 0x14)), (0, child(2, "c", 0))];
+        s.push((0, Op::MkInSpan { fut: 0, slot: 2, polls, tag: "f".into(), inner_enter_on_poll: false }));
+        s.push((0, scope(1)));
+        s.push((0, lenter("outer")));
+        for _ in 0..polls {
+            s.push((0, Op::ObserveLocal));
+            s.push((0, Op::Poll { fut: 0 }));
+            s.push((0, Op::ObserveLocal));
+        }
+        s.push((0, pop()));
+        s.push((0, pop()));
+        s.push((0, Op::DropFut { fut: 0 }));
+        s.push((0, finish(1)));
+        s.push((0, finish(0)));
+        out.push(lockstep(&name("inscope"), &s));
+    }
+    // nested in_span(in_span)
+    for polls in 1..=2u32 {
+        for seq in actor_seqs(polls as usize, 2) {
+            let mut s: Vec<(usize, Op)> = vec![(0, root(0, "r", 0x13)), (0, child(1, "o", 0)), (0, child(2, "i", 0))];
+            s.push((0, Op::MkNested { fut: 0, outer: 1, inner: 2, polls, tag: "f".into() }));
+            for a in &seq {
+                s.push((*a, Op::ObserveLocal));
+                s.push((*a, Op::Poll { fut: 0 }));
+                s.push((*a, Op::ObserveLocal));
+            }
+            s.push((0, Op::DropFut { fut: 0 }));
+            s.push((0, finish(0)));
+            out.push(lockstep(&name("nested"), &s));
+        }
+    }
+    // enter_on_poll alone: under a scope, and with no local parent at all
+    for polls in 1..=2u32 {
+        for scoped in [true, false] {
+            let mut s: Vec<(usize, Op)> = vec![(0, root(0, "r", 0x13))];
+            s.push((0, Op::MkEnterOnPoll { fut: 0, polls, tag: "f".into() }));
+            if scoped {
+                s.push((0, scope(0)));
+            }
+            for _ in 0..polls {
+                s.push((0, Op::ObserveLocal));
+                s.push((0, Op::Poll { fut: 0 }));
+                s.push((0, Op::ObserveLocal));
+            }
+            if scoped {
+                s.push((0, pop()));
+            }
+            s.push((0, Op::DropFut { fut: 0 }));
+            s.push((0, finish(0)));
+            out.push(lockstep(&name("eop"), &s));
+        }
+    }
+    out
+}
+
+/// C14: stream and sink adapters.
+pub fn stream_sink_programs(thorough: bool) -> Vec<Program> {
+    let mut out = Vec::new();
+    let mut idx = 0;
+    let mut name = |k: &str| {
+        idx += 1;
+        format!("C14-{k}#{idx}")
+    };
+    let max_items = if thorough { 2 } else { 1 };
+    for items in 0..=max_items {
+        for pending_first in [false, true] {
+            for span_is_root in [true, false] {
+                let total_calls = items + 1 + pending_first as u32;
+                for calls in 0..=total_calls {
+                    for seq in actor_seqs(calls as usize, 2) {
+                        if !thorough && seq.len() > 2 && seq.iter().skip(1).any(|a| *a != seq[1]) {
+                            continue;
+                        }
+                        let mut s: Vec<(usize, Op)> = vec![(0, root(0, "r", 0x14))];
+                        let slot = if span_is_root {
+                            0
+                        } else {
+                            s.push((0, child(1, "c", 0)));
+                            1
+                        };
+                        s.push((0, Op::MkStream { fut: 0, slot, items, pending_first, tag: "st".into() }));
+                        for a in &seq {
+                            s.push((*a, Op::ObserveLocal));
+                            s.push((*a, Op::PollNext { fut: 0 }));
+                            s.push((*a, Op::ObserveLocal));
+                        }
+                        let last = seq.last().copied().unwrap_or(0);
+                        s.push((last, Op::DropFut { fut: 0 }));
+                        if !span_is_root {
+                            s.push((last, finish(0)));
+                        }
+                        out.push(lockstep(&name("stream"), &s));
+                    }
+                }
+            }
+        }
+    }
+    // sinks: call sequences over ready/send/flush/close, close possibly pending once
+    let calls: Vec<Vec<Op>> = {
+        let menu = [Op::SinkReady { fut: 0 }, Op::SinkSend { fut: 0 }, Op::SinkFlush { fut: 0 }, Op::SinkClose { fut: 0 }];
+        let maxlen = if thorough { 4 } else { 3 };
+        let mut all: Vec<Vec<Op>> = vec![vec![]];
+        let mut frontier: Vec<Vec<Op>> = vec![vec![]];
+        for _ in 0..maxlen {
+            let mut next = Vec::new();
+            for s in &frontier {
+                // nothing after a completed close
+                for m in &menu {
+                    let mut t = s.clone();
+                    t.push(m.clone());
+                    next.push(t);
+                }
+            }
+            all.extend(next.iter().cloned());
+            frontier = next;
+        }
+        all
+    };
+    for pending_first in [false, true] {
+        for span_is_root in [true, false] {
+            for cs in &calls {
+                // stop sequences at the completing close
+                let mut closes = 0;
+                let mut valid = true;
+                for (i, c) in cs.iter().enumerate() {
+                    if let Op::SinkClose { .. } = c {
+                        closes += 1;
+                        let done = if pending_first { closes == 2 } else { closes == 1 };
+                        if done && i + 1 != cs.len() {
+                            valid = false;
+                        }
+                    }
+                }
+                if !valid {
+                    continue;
+                }
+                for second_actor_from in [usize::MAX, 1] {
+                    if second_actor_from != usize::MAX && cs.len() < 2 {
+                        continue;
+                    }
+                    let mut s: Vec<(usize, Op)> = vec![(0, root(0, "r", 0x15))];
+                    let slot = if span_is_root {
+                        0
+                    } else {
+                        s.push((0, child(1, "c", 0)));
+                        1
+                    };
+                    s.push((0, Op::MkSink { fut: 0, slot, tag: "sk".into(), pending_first }));
+                    let mut last = 0;
+                    for (i, c) in cs.iter().enumerate() {
+                        let a = if i >= second_actor_from { 1 } else { 0 };
+                        s.push((a, Op::ObserveLocal));
+                        s.push((a, c.clone()));
+                        s.push((a, Op::ObserveLocal));
+                        last = a;
+                    }
+                    s.push((last, Op::DropFut { fut: 0 }));
+                    if !span_is_root {
+                        s.push((last, finish(0)));
+                    }
+                    out.push(lockstep(&name("sink"), &s));
+                }
+            }
+        }
+    }
+    out
+}
